@@ -479,12 +479,15 @@ def comp_symbolic(ex, node, gen, dom: Domain, st: State, kind: str) -> List[Tupl
                 zt = [ex.term(v, s)]
             facts = s.pc[base_len + 2:]
             branches.append((facts, zt))
+    if not hasattr(ex, "fresh_terms"):
+        ex.fresh_terms = set()
     sN = st
     if heap_touched:
         # every element evaluation preserves all PathHolders allocated before it (frame obligations of
         # the inlined code / frame axioms of the callees): afterwards only that frame is known
         ex.contracts._havoc_paths(ex, sN)
     R = M.fresh("comp")
+    ex.fresh_terms.add(R.get_id())       # a comprehension result is a freshly allocated container
     inr = z3.And(0 <= j, j < n)
     jj = z3.Int("cjq")
     if not has_skip and kind in ("list", "gen"):
